@@ -199,6 +199,7 @@ type Event struct {
 	Args   []*Sym        // including receiver for method calls
 	Res    *Sym
 	Store  bool // a store: Args[0]=address, Args[1]=value
+	MapUpd *ssa.MapUpdate // m[k] = v into a map not made on this path: Args = map, key, value
 	StoreI *ssa.Store
 	Deref  []*Sym // for pointer arguments to tracked locals: the value pointed to at the time of the call
 	Inlined bool  // the callee was interpreted in place (the event records the call and its arguments only)
@@ -659,6 +660,10 @@ func (ps *PathSim) exec(fn *ssa.Function, st *pstate, ins ssa.Instruction) {
 		st.env[x] = &Sym{K: sOpaque, V: x, T: x.Type(), iter: gen(x)}
 	case *ssa.MapUpdate:
 		m := ps.sym(st, x.Map)
+		if m.K != sFresh {
+			// a store into a map that was not made on this path: recorded for the rules that care where a value is put
+			st.events = append(st.events, Event{In: fn, MapUpd: x, Args: []*Sym{m, ps.sym(st, x.Key), ps.sym(st, x.Value)}})
+		}
 		if m.K == sFresh {
 			if ck, ok := constKeyOf(st, ps.sym(st, x.Key)); ok {
 				n := map[string]mapEnt{}
@@ -867,6 +872,52 @@ func (ps *PathSim) soleImplementation(fn *ssa.Function, ci ssa.CallInstruction) 
 	return only
 }
 
+// methodOfDynamicType: for a call through an interface whose receiver has a dynamic type known on this path (established
+// by a type test or assertion), the method of that type — for types of the analysed module only.
+func (ps *PathSim) methodOfDynamicType(st *pstate, recv *Sym, com *ssa.CallCommon) *ssa.Function {
+	if ps.prog == nil || ps.prog.SSA == nil || recv == nil || com.Method == nil {
+		return nil
+	}
+	x := recv
+	for i := 0; i < 4 && x != nil && x.K == sTAValue; i++ {
+		// an assertion to an interface type keeps the value: look at what was asserted
+		if _, isIface := x.T.Underlying().(*types.Interface); !isIface {
+			break
+		}
+		x = x.A
+	}
+	var dt types.Type
+	if x != nil {
+		if t, ok := st.dyn[x.Key()]; ok {
+			dt = t
+		} else if x.K == sMkIface && x.A != nil && x.A.T != nil {
+			if _, isIface := x.A.T.Underlying().(*types.Interface); !isIface {
+				dt = x.A.T
+			}
+		}
+	}
+	if dt == nil {
+		return nil
+	}
+	base := dt
+	if p, ok := base.(*types.Pointer); ok {
+		base = p.Elem()
+	}
+	nt, ok := base.(*types.Named)
+	if !ok || nt.Obj().Pkg() == nil || !(nt.Obj().Pkg().Path() == modPath || nt.Obj().Pkg().Path() == grammarPath) {
+		return nil
+	}
+	sel := ps.prog.SSA.MethodSets.MethodSet(dt).Lookup(com.Method.Pkg(), com.Method.Name())
+	if sel == nil {
+		return nil
+	}
+	f := ps.prog.SSA.MethodValue(sel)
+	if f == nil || len(f.Blocks) == 0 {
+		return nil
+	}
+	return f
+}
+
 func (ps *PathSim) execCall(fn *ssa.Function, st *pstate, ci ssa.CallInstruction, val *ssa.Call) {
 	com := ci.Common()
 	ev := Event{Instr: ci, In: fn, Callee: com.StaticCallee()}
@@ -874,6 +925,9 @@ func (ps *PathSim) execCall(fn *ssa.Function, st *pstate, ci ssa.CallInstruction
 		ev.Args = append(ev.Args, ps.sym(st, com.Value))
 		if f := ps.soleImplementation(fn, ci); f != nil {
 			ev.Callee = f // a method of an interface of the module that one type implements: the call can only go there
+			ev.Resolved = true
+		} else if f := ps.methodOfDynamicType(st, ev.Args[0], com); f != nil {
+			ev.Callee = f // the receiver's dynamic type is known on this path
 			ev.Resolved = true
 		}
 	} else if ev.Callee == nil {
@@ -935,6 +989,9 @@ func (ps *PathSim) execCall(fn *ssa.Function, st *pstate, ci ssa.CallInstruction
 						s = &Sym{K: sConst, C: s.C, T: val.Type()}
 					}
 				}
+			}
+			if n, ok := appendedLen(st, ev.Args[0]); ok {
+				s = &Sym{K: sConst, C: constant.MakeInt64(n), T: val.Type()}
 			}
 			if n, ok := staticLen(com.Args[0].Type(), ev.Args[0]); ok {
 				s = &Sym{K: sConst, C: constant.MakeInt64(n), T: val.Type()}
@@ -1649,6 +1706,19 @@ func (ps *PathSim) walk(fn *ssa.Function, b *ssa.BasicBlock, start int, pred *ss
 			case *ssa.Call:
 				callee := x.Common().StaticCallee()
 				var bindings []*Sym
+				invoked := false
+				if callee == nil && x.Common().IsInvoke() && ps.Inline != nil {
+					// a call through an interface whose target is known: the one implementation, or the method of the
+					// receiver's dynamic type on this path
+					if f := ps.soleImplementation(fn, x); f != nil {
+						callee, invoked = f, true
+					} else if f := ps.methodOfDynamicType(st, ps.sym(st, x.Common().Value), x.Common()); f != nil {
+						callee, invoked = f, true
+					}
+					if invoked && !ps.Inline(callee) {
+						callee, invoked = nil, false // stays a call (execCall resolves it again for the event)
+					}
+				}
 				if callee == nil && !x.Common().IsInvoke() {
 					callee, bindings = ps.funcOfSym(ps.sym(st, x.Common().Value))
 				} else if _, isMC := x.Common().Value.(*ssa.MakeClosure); isMC {
@@ -1700,9 +1770,13 @@ func (ps *PathSim) walk(fn *ssa.Function, b *ssa.BasicBlock, start int, pred *ss
 						}
 					}
 					var newArgs []*Sym
+					callArgs := com.Args
+					if invoked {
+						callArgs = append([]ssa.Value{com.Value}, com.Args...) // the receiver first
+					}
 					for k := range callee.Params {
-						if k < len(com.Args) {
-							newArgs = append(newArgs, ps.sym(st, com.Args[k]))
+						if k < len(callArgs) {
+							newArgs = append(newArgs, ps.sym(st, callArgs[k]))
 						}
 					}
 					for k, p := range callee.Params {
@@ -1985,4 +2059,56 @@ func madeKind(v *Sym) (int64, bool) {
 		return 21, true
 	}
 	return 0, false
+}
+
+// appendedLen: the length of a slice put together on this path by appending single elements (append(s, x)) to nil or to a
+// slice made empty: the number of appends.
+func appendedLen(st *pstate, s *Sym) (int64, bool) {
+	if s == nil {
+		return 0, false
+	}
+	if s.IsNil() {
+		if _, isSlice := typeOfSym(s).(*types.Slice); isSlice {
+			return 0, true
+		}
+		return 0, false
+	}
+	var n int64
+	for depth := 0; s != nil && s.K == sCall && depth < 64; depth++ {
+		var ev *Event
+		for i := len(st.events) - 1; i >= 0; i-- {
+			if st.events[i].Res != nil && st.events[i].Res.Key() == s.Key() {
+				ev = &st.events[i]
+				break
+			}
+		}
+		if ev == nil || !isBuiltinCall(ev, "append") || len(ev.Args) != 2 {
+			return 0, false
+		}
+		// the variadic argument: a local array of known size
+		if len(ev.Deref) < 2 || ev.Deref[1] == nil || ev.Deref[1].K != sStruct {
+			return 0, false
+		}
+		n += int64(len(ev.Deref[1].F))
+		s = ev.Args[0]
+	}
+	if s == nil {
+		return 0, false
+	}
+	if s.IsNil() {
+		return n, true
+	}
+	if s.K == sFresh && len(s.Kids) == 1 && s.Kids[0].K == sConst && s.Kids[0].C != nil {
+		if v, exact := constant.Int64Val(s.Kids[0].C); exact {
+			return n + v, true
+		}
+	}
+	return 0, false
+}
+
+func typeOfSym(s *Sym) types.Type {
+	if s == nil || s.T == nil {
+		return nil
+	}
+	return s.T.Underlying()
 }
